@@ -7,6 +7,7 @@
 -/
 import Distill.Proofs.Convert
 import Distill.Model.Render
+import Distill.Gen.Funcs
 namespace Distill.C04
 open Distill
 
@@ -54,5 +55,8 @@ caption clone contains no node inside an element the visibility test rejects. -/
 theorem output_nodes_visible (A : CAtoms) (n : Node) :
     (outputTextIds A n).Sublist (n.visibleOnlyTextIds A) :=
   outputTextIds_sublist A n
+
+/-- the statement list of `GetOutputNodes` as it stands (script/style and visibility filter) -/
+theorem get_output_nodes_tie : Gen.getOutputNodesBody = Gen.getOutputNodesBodyExpected := by rfl
 
 end Distill.C04
